@@ -93,13 +93,14 @@ def run(rep):
     quick = rep.tier == 'quick'
     exh = ['FamCore', 'FamMut', 'FamMut3', 'FamCor', 'FamRank3', 'FamGen', 'FamPerm']
     if not quick:
-        exh = ['FamCore0', 'FamMut', 'FamMut3', 'FamCor', 'FamRank3', 'FamGen', 'FamPerm2', 'FamThree']
+        exh = ['FamCore0', 'FamMut2', 'FamMut3', 'FamCor', 'FamRank3', 'FamGen', 'FamPerm2', 'FamThree', 'FamThreeV']
+    sim = ['FamSimV', 'FamSimW', 'FamSimM', 'FamSimC', 'FamSimVO']
     nsim = 250 if quick else 8000
     mutants = ['trace-noshift', 'sum-nosummed'] if quick else sorted(SPEC_MUTANTS)
     tmo = 500 if quick else 2400
     jobs = {
         'exhaustive': lambda: run_tlc('c19-exh', exh, timeout=tmo),
-        'simulate': lambda: run_tlc('c19-sim', ['FamSim'], emitmin=2, simulate=nsim, depth=16, seed=rep.seed + 19, timeout=tmo),
+        'simulate': lambda: run_tlc('c19-sim', sim, emitmin=2, simulate=nsim, depth=24, seed=rep.seed + 19, timeout=tmo),
         # vacuity guard: per-action coverage of the bare machine on the families that enable every action
         'coverage': lambda: run_tlc('c19-cover', ['FamMut', 'FamMut3', 'FamCor'], bare=True, coverage=True, timeout=tmo),
     }
@@ -133,7 +134,7 @@ def run(rep):
 
     tables = None
     byfam = collections.defaultdict(dict)
-    for k, names in (('exhaustive', exh), ('simulate', ['FamSim'])):
+    for k, names in (('exhaustive', exh), ('simulate', sim)):
         for e in results[k].emitted:
             if 'vars' in e:
                 tables = e
@@ -146,13 +147,14 @@ def run(rep):
 
     # S->C replay
     R = c19_ns.Replayer(tables)
-    per_class = 40 if quick else 100000
+    per_class = 25 if quick else 100000          # invalid strings replayed per (family, violated rule)
+    per_valid = 200 if quick else 100000         # valid strings replayed per family
     nvalid = 0
     worst = {}
     seen = set()
     for name in sorted(byfam):
         cases = list(byfam[name].values())
-        sel = stratified(cases, 100000 if name == 'FamSim' else per_class, 250 if quick else 100000, rng)
+        sel = stratified(cases, 100000 if name in sim else per_class, 100000 if name in sim else per_valid, rng)
         for c in sel:
             s = c19_ns.text(c)
             if (s, c['ok']) in seen:
@@ -178,7 +180,7 @@ def run(rep):
                 rep.traces += 1
                 nvalid += c['ok'] == 'ok'
                 rep.case((s, c['ok']), nontrivial=c['no'] >= 2)
-                if c['no'] >= 3 and name == 'FamSim':
+                if c['no'] >= 3 and name in sim:
                     rep.sample(dict(expression=s, verdict=c['ok'], rule=c['why'], axes=c['fr'], array=c['arr'] if len(c['arr']['v']) <= 4 else '...'))
     rep.lap('replay')
     for key, (rank, what, data, count) in sorted(worst.items()):
